@@ -67,7 +67,7 @@ SCF_EPS = 1e-10
 SP2_EPS = 1e-7
 CIS_TOL = 1e-8
 K = 1000.0
-HORIZON = 3000
+HORIZON = 6000  # cumulative per call; the largest count seen on healthy runs is ~1200 (SP2 iterations x SCF passes)
 MD_STEPS = 4
 ENGINES = {
     "bomd": ("bomd", None),
@@ -606,8 +606,11 @@ def run(chk, tier, seed):
             outcome=f"{c['sec']}|{c['cfg']['solver']}|{c['cfg'].get('engine')}|{r['status']}|{_decade(r.get('worst', 0.0))}|{len(r['problems']) > 0}",
         )  # fmt: skip
         if r["problems"]:
-            suspects.append((c, r))
-    # every disagreement is re-evaluated once in a fresh process with recomputed singles before it is reported
+            if r["status"] == "ok":
+                suspects.append((c, r))
+            else:  # an exception / horizon trip is not a numerical disagreement: reported as it is
+                chk.violation(describe(c, r), f"{k}: {r['problems'][0]} (+{len(r['problems']) - 1} more)", replay=c)
+    # every numerical disagreement is re-evaluated once in a fresh process with recomputed singles before it is reported
     again = pmap(recheck, [c for c, _ in suspects], chunk=1, timeout=900, progress="C05 recheck")
     for (c, r), r2 in zip(suspects, again):
         k = case_key(c)
